@@ -288,6 +288,8 @@ fn c03_cfg(ctx: &Ctx) -> CaseCfg {
       max_script: 5,
       nhot: 3,
       combine: true,
+      // (shared connections as inputs of the combining operators)
+      connectable: true,
       exclude,
       ..GenCfg::default()
     },
